@@ -4,3 +4,4 @@ int v_errno; size_t g_k, g_m;
 void sodium_misuse(void) { __CPROVER_assert(0, "sodium_misuse reachable for an in-contract call"); __CPROVER_assume(0); }
 void hu_hex2bin(void) { unsigned char *b; size_t bm; const char *h; size_t hl; const char *ig; size_t *bl; const char **he; sodium_hex2bin(b, bm, h, hl, ig, bl, he); }
 void hu_base642bin(void) { unsigned char *b; size_t bm; const char *h; size_t hl; const char *ig; size_t *bl; const char **he; int v; sodium_base642bin(b, bm, h, hl, ig, bl, he, v); }
+void hu_bin2base64(void) { char *o; size_t om; const unsigned char *b; size_t bl; int v; sodium_bin2base64(o, om, b, bl, v); }
